@@ -5,6 +5,8 @@ CHECK_DEADLOCK FALSE
 INVARIANTS
   C09_Attrs
   C09_MayAdvertise
+  C09_Advertise
+  C09_Withdraw
   C09_StoredUnchanged
   C09_Inbound
   C09_InboundNoStale
